@@ -452,6 +452,12 @@ pub struct ZRB;
 impl Debug for ZRA { fn fmt(&self, f: &mut fmt::Formatter<'_>) -> fmt::Result { write!(f, "ZR") } }
 impl Debug for ZRB { fn fmt(&self, f: &mut fmt::Formatter<'_>) -> fmt::Result { write!(f, "ZR") } }
 
+/// A type used in BOTH roles: the task `Dual(v)` reads the resource `Dual(v)` (same type, same value) and returns
+/// `cell*10+5`. Task node and resource node of the same key must stay two nodes (role is part of the identity).
+#[derive(Clone, PartialEq, Eq, Hash)]
+pub struct Dual(pub u8);
+impl Debug for Dual { fn fmt(&self, f: &mut fmt::Formatter<'_>) -> fmt::Result { write!(f, "D({})", self.0) } }
+
 /// Cell store; one instance per resource TYPE, kept in pie's per-resource-type state (same state type for all).
 #[derive(Default, Clone, Debug)]
 pub struct Cells { pub v: [u8; 2] }
@@ -465,6 +471,7 @@ impl CellId for RA { fn cell_id(&self) -> usize { self.0 as usize } }
 impl CellId for RB { fn cell_id(&self) -> usize { self.0 as usize } }
 impl CellId for ZRA { fn cell_id(&self) -> usize { 0 } }
 impl CellId for ZRB { fn cell_id(&self) -> usize { 0 } }
+impl CellId for Dual { fn cell_id(&self) -> usize { self.0 as usize } }
 
 macro_rules! impl_cell_resource {
   ($ty:ty) => {
@@ -499,6 +506,7 @@ impl_cell_resource!(RA);
 impl_cell_resource!(RB);
 impl_cell_resource!(ZRA);
 impl_cell_resource!(ZRB);
+impl_cell_resource!(Dual);
 
 macro_rules! impl_reading_task {
   ($ty:ty, $slf:ident => $res:expr, $tag:expr) => {
@@ -518,35 +526,36 @@ impl_reading_task!(ZTA, _s => RA(0), 1);
 impl_reading_task!(ZTB, _s => RB(0), 2);
 impl_reading_task!(ZUA, _s => ZRA, 3);
 impl_reading_task!(ZUB, _s => ZRB, 4);
+impl_reading_task!(Dual, s => Dual(s.0), 5);
 
 /// Leaf task families (concrete Rust types). `Unit` is pie's own `impl Task for ()` (output `()`, shown as 0).
 #[derive(Clone, Copy, PartialEq, Eq, Hash, PartialOrd, Ord, Debug)]
-pub enum Fam { A, B, BoxA, RcA, ArcA, BoxB, ZTA, ZTB, BoxZTA, ZUA, ZUB, Unit }
-pub const NF: usize = 12;
-pub const FAMS: [Fam; NF] = [Fam::A, Fam::B, Fam::BoxA, Fam::RcA, Fam::ArcA, Fam::BoxB, Fam::ZTA, Fam::ZTB, Fam::BoxZTA, Fam::ZUA, Fam::ZUB, Fam::Unit];
+pub enum Fam { A, B, BoxA, RcA, ArcA, BoxB, ZTA, ZTB, BoxZTA, ZUA, ZUB, Unit, Dual }
+pub const NF: usize = 13;
+pub const FAMS: [Fam; NF] = [Fam::A, Fam::B, Fam::BoxA, Fam::RcA, Fam::ArcA, Fam::BoxB, Fam::ZTA, Fam::ZTB, Fam::BoxZTA, Fam::ZUA, Fam::ZUB, Fam::Unit, Fam::Dual];
 
 #[derive(Clone, Copy, PartialEq, Eq, Hash, PartialOrd, Ord, Debug)]
-pub enum RFam { RA, RB, ZRA, ZRB }
-pub const NR: usize = 4;
-pub const RFAMS: [RFam; NR] = [RFam::RA, RFam::RB, RFam::ZRA, RFam::ZRB];
+pub enum RFam { RA, RB, ZRA, ZRB, Dual }
+pub const NR: usize = 5;
+pub const RFAMS: [RFam; NR] = [RFam::RA, RFam::RB, RFam::ZRA, RFam::ZRB, RFam::Dual];
 
 impl Fam {
   pub fn idx(self) -> usize { self as usize }
   pub fn name(self) -> &'static str {
     match self {
       Fam::A => "FA", Fam::B => "FB", Fam::BoxA => "Box<FA>", Fam::RcA => "Rc<FA>", Fam::ArcA => "Arc<FA>", Fam::BoxB => "Box<FB>",
-      Fam::ZTA => "ZTA", Fam::ZTB => "ZTB", Fam::BoxZTA => "Box<ZTA>", Fam::ZUA => "ZUA", Fam::ZUB => "ZUB", Fam::Unit => "()",
+      Fam::ZTA => "ZTA", Fam::ZTB => "ZTB", Fam::BoxZTA => "Box<ZTA>", Fam::ZUA => "ZUA", Fam::ZUB => "ZUB", Fam::Unit => "()", Fam::Dual => "Dual",
     }
   }
   /// Tag shown in `P(tag,v)`.
   pub fn tag(self) -> &'static str {
     match self {
       Fam::A => "A", Fam::B => "B", Fam::BoxA => "BoxA", Fam::RcA => "RcA", Fam::ArcA => "ArcA", Fam::BoxB => "BoxB",
-      Fam::ZTA => "ZTA", Fam::ZTB => "ZTB", Fam::BoxZTA => "BoxZTA", Fam::ZUA => "ZUA", Fam::ZUB => "ZUB", Fam::Unit => "Unit",
+      Fam::ZTA => "ZTA", Fam::ZTB => "ZTB", Fam::BoxZTA => "BoxZTA", Fam::ZUA => "ZUA", Fam::ZUB => "ZUB", Fam::Unit => "Unit", Fam::Dual => "Dual",
     }
   }
   /// Families of types without a field have the single value 0.
-  pub fn fieldless(self) -> bool { !matches!(self, Fam::A | Fam::B | Fam::BoxA | Fam::RcA | Fam::ArcA | Fam::BoxB) }
+  pub fn fieldless(self) -> bool { !matches!(self, Fam::A | Fam::B | Fam::BoxA | Fam::RcA | Fam::ArcA | Fam::BoxB | Fam::Dual) }
   pub fn values(self) -> &'static [u8] { if self.fieldless() { &[0] } else { &[0, 1] } }
   /// The resource a task of this family with value `v` reads.
   pub fn resource(self, v: u8) -> Option<RKey> {
@@ -557,6 +566,7 @@ impl Fam {
       Fam::ZTB => Some(RKey(RFam::RB, 0)),
       Fam::ZUA => Some(RKey(RFam::ZRA, 0)),
       Fam::ZUB => Some(RKey(RFam::ZRB, 0)),
+      Fam::Dual => Some(RKey(RFam::Dual, v)),
       Fam::Unit => None,
     }
   }
@@ -567,13 +577,14 @@ impl Fam {
       Fam::B | Fam::BoxB | Fam::ZTB => cell * 10 + 2,
       Fam::ZUA => cell * 10 + 3,
       Fam::ZUB => cell * 10 + 4,
+      Fam::Dual => cell * 10 + 5,
       Fam::Unit => 0,
     }
   }
 }
 impl RFam {
   pub fn idx(self) -> usize { self as usize }
-  pub fn name(self) -> &'static str { match self { RFam::RA => "RA", RFam::RB => "RB", RFam::ZRA => "ZRA", RFam::ZRB => "ZRB" } }
+  pub fn name(self) -> &'static str { match self { RFam::RA => "RA", RFam::RB => "RB", RFam::ZRA => "ZRA", RFam::ZRB => "ZRB", RFam::Dual => "res:Dual" } }
   pub fn fieldless(self) -> bool { matches!(self, RFam::ZRA | RFam::ZRB) }
   pub fn values(self) -> &'static [u8] { if self.fieldless() { &[0] } else { &[0, 1] } }
 }
@@ -601,6 +612,7 @@ impl Task for P {
       Fam::ZUA => context.require(&*Box::new(ZUA), EqualsChecker),
       Fam::ZUB => context.require(&*Box::new(ZUB), EqualsChecker),
       Fam::Unit => { context.require(&*Box::new(()), EqualsChecker); 0 }
+      Fam::Dual => context.require(&Dual(v), EqualsChecker),
     }
   }
 }
@@ -650,6 +662,7 @@ pub fn classify_task(k: &dyn KeyObj) -> Option<TKey> {
   if a.is::<ZUA>() { return Some(TKey::Leaf(Fam::ZUA, 0)); }
   if a.is::<ZUB>() { return Some(TKey::Leaf(Fam::ZUB, 0)); }
   if a.is::<()>() { return Some(TKey::Leaf(Fam::Unit, 0)); }
+  if let Some(t) = a.downcast_ref::<Dual>() { return Some(TKey::Leaf(Fam::Dual, t.0)); }
   if let Some(t) = a.downcast_ref::<P>() { return Some(TKey::Par(t.0, t.1)); }
   None
 }
@@ -659,6 +672,7 @@ pub fn classify_res(k: &dyn KeyObj) -> Option<RKey> {
   if let Some(r) = a.downcast_ref::<RB>() { return Some(RKey(RFam::RB, r.0)); }
   if a.is::<ZRA>() { return Some(RKey(RFam::ZRA, 0)); }
   if a.is::<ZRB>() { return Some(RKey(RFam::ZRB, 0)); }
+  if let Some(r) = a.downcast_ref::<Dual>() { return Some(RKey(RFam::Dual, r.0)); }
   None
 }
 
@@ -846,7 +860,7 @@ pub struct Obs {
 impl Obs {
   pub fn to_json(&self) -> Value {
     json!({"outputs": self.outputs, "executed": self.executed.iter().map(|k| k.name()).collect::<Vec<_>>(), "panic": self.panic,
-      "dependency_check_errors": self.dep_errors, "cells": {"RA": self.cells[0], "RB": self.cells[1], "ZRA": self.cells[2][0], "ZRB": self.cells[3][0]}, "store": self.census.to_json()})
+      "dependency_check_errors": self.dep_errors, "cells": {"RA": self.cells[0], "RB": self.cells[1], "ZRA": self.cells[2][0], "ZRB": self.cells[3][0], "Dual": self.cells[4]}, "store": self.census.to_json()})
   }
 }
 
@@ -868,6 +882,7 @@ fn require_key(s: &mut pie::Session<'_>, k: TKey, z: ZForm) -> u8 {
     TKey::Leaf(Fam::ZUA, _) => zreq!(ZUA),
     TKey::Leaf(Fam::ZUB, _) => zreq!(ZUB),
     TKey::Leaf(Fam::Unit, _) => { zreq!(()); 0 }
+    TKey::Leaf(Fam::Dual, v) => s.require(&Dual(v)),
     TKey::Leaf(Fam::A, v) => s.require(&FA(v)),
     TKey::Leaf(Fam::B, v) => s.require(&FB(v)),
     TKey::Leaf(Fam::BoxA, v) => s.require(&Box::new(FA(v))),
@@ -885,7 +900,8 @@ fn read_cells(pie: &mut Pie<Rec>) -> [[u8; 2]; NR] {
   let b = pie.resource_state_mut::<RB>().get_or_set_default_mut::<Cells>().v;
   let c = pie.resource_state_mut::<ZRA>().get_or_set_default_mut::<Cells>().v;
   let d = pie.resource_state_mut::<ZRB>().get_or_set_default_mut::<Cells>().v;
-  [a, b, c, d]
+  let e = pie.resource_state_mut::<Dual>().get_or_set_default_mut::<Cells>().v;
+  [a, b, c, d, e]
 }
 
 /// Applies `op` to the real Pie. `observe`: also take the store census (skipped for path prefixes).
@@ -900,6 +916,7 @@ pub fn apply_real(pie: &mut Pie<Rec>, op: &Op, observe: bool, z: ZForm) -> Obs {
     Op::SetCell(RKey(RFam::RB, id), v) => { pie.resource_state_mut::<RB>().get_or_set_default_mut::<Cells>().v[*id as usize] = *v; }
     Op::SetCell(RKey(RFam::ZRA, _), v) => { pie.resource_state_mut::<ZRA>().get_or_set_default_mut::<Cells>().v[0] = *v; }
     Op::SetCell(RKey(RFam::ZRB, _), v) => { pie.resource_state_mut::<ZRB>().get_or_set_default_mut::<Cells>().v[0] = *v; }
+    Op::SetCell(RKey(RFam::Dual, id), v) => { pie.resource_state_mut::<Dual>().get_or_set_default_mut::<Cells>().v[*id as usize] = *v; }
     Op::Req(_) | Op::Req2(_, _) => {
       let keys: Vec<TKey> = match op { Op::Req(k) => vec![*k], Op::Req2(a, b) => vec![*a, *b], _ => unreachable!() };
       let res = catch_unwind(AssertUnwindSafe(|| {
@@ -923,6 +940,7 @@ pub fn apply_real(pie: &mut Pie<Rec>, op: &Op, observe: bool, z: ZForm) -> Obs {
           match (r, z) {
             (RKey(RFam::RA, id), _) => b.schedule_tasks_affected_by(&RA(id)),
             (RKey(RFam::RB, id), _) => b.schedule_tasks_affected_by(&RB(id)),
+            (RKey(RFam::Dual, id), _) => b.schedule_tasks_affected_by(&Dual(id)),
             (RKey(RFam::ZRA, _), ZForm::BoxDeref) => { let x = Box::new(ZRA); b.schedule_tasks_affected_by(&*x) }
             (RKey(RFam::ZRA, _), ZForm::Local) => { let x = ZRA; b.schedule_tasks_affected_by(&x) }
             (RKey(RFam::ZRB, _), ZForm::BoxDeref) => { let x = Box::new(ZRB); b.schedule_tasks_affected_by(&*x) }
@@ -1098,7 +1116,7 @@ impl MState {
       if let Some(c) = self.leaf[f.idx()][v as usize] { leaf.insert(TKey::Leaf(f, v).name(), json!({"read_cell": c, "output": f.out(c)})); }
       if let Some(o) = self.par[f.idx()][v as usize] { par.insert(TKey::Par(f, v).name(), json!({"child_output_seen": o})); }
     } }
-    json!({"leaf": leaf, "parents": par, "cells": {"RA": self.cells[0], "RB": self.cells[1], "ZRA": self.cells[2][0], "ZRB": self.cells[3][0]},
+    json!({"leaf": leaf, "parents": par, "cells": {"RA": self.cells[0], "RB": self.cells[1], "ZRA": self.cells[2][0], "ZRB": self.cells[3][0], "Dual": self.cells[4]},
       "resource_nodes": self.census().resources.iter().map(|r| r.name()).collect::<Vec<_>>()})
   }
 }
@@ -1201,6 +1219,54 @@ pub fn judge_path(ops: &[Op], obs: &[Obs]) -> Option<(usize, Vec<Fail>, Expect)>
   None
 }
 
+/// Result of executing one operation path several times on fresh Pie instances (fresh hash seeds), every execution
+/// judged against the model.
+pub struct Repeated {
+  /// observations of the reported execution: the failing one with the earliest failing step, else the first
+  pub obs: Vec<Obs>,
+  pub fail: Option<(usize, Vec<Fail>)>,
+  pub runs: usize,
+  pub failing_runs: usize,
+  /// all executions showed the same behaviour (executed tasks compared as multisets)
+  pub deterministic: bool,
+}
+
+fn same_behaviour(a: &[Obs], b: &[Obs]) -> bool {
+  a.len() == b.len() && a.iter().zip(b.iter()).all(|(x, y)| {
+    let (mut ex, mut ey) = (x.executed.clone(), y.executed.clone());
+    ex.sort();
+    ey.sort();
+    ex == ey && x.outputs == y.outputs && x.panic == y.panic && x.dep_errors == y.dep_errors && x.cells == y.cells && x.census == y.census
+  })
+}
+
+/// A defect in the code under test may make pie's behaviour depend on the hash seeds of its maps; then executions of
+/// one path differ. That is a finding about pie (reported through the oracles that fail), never an engine error.
+pub fn run_repeated(ops: &[Op], z: ZForm, runs: usize) -> Repeated {
+  let mut r = Repeated { obs: Vec::new(), fail: None, runs, failing_runs: 0, deterministic: true };
+  let mut first: Option<Vec<Obs>> = None;
+  for _ in 0..runs {
+    let obs = run_path_full(ops, z);
+    if let Some(f) = &first { if !same_behaviour(f, &obs) { r.deterministic = false; } }
+    let judged = judge_path(ops, &obs).map(|(step, fails, _)| (step, fails));
+    if let Some((step, fails)) = judged {
+      r.failing_runs += 1;
+      if r.fail.as_ref().map_or(true, |(s, _)| step < *s) { r.fail = Some((step, fails)); r.obs = obs.clone(); }
+    }
+    if first.is_none() { first = Some(obs); }
+  }
+  if r.fail.is_none() { r.obs = first.unwrap_or_default(); }
+  if !r.deterministic && r.failing_runs == 0 { engine_error("C15: executions of one path differ although each of them matches the model completely (harness-internal contradiction)"); }
+  r
+}
+
+impl Repeated {
+  pub fn note(&self) -> String {
+    if self.deterministic { format!("all {} executions on fresh instances agree", self.runs) }
+    else { format!("NON-DETERMINISTIC: {} of {} executions of this path on fresh instances (fresh hash seeds) fail", self.failing_runs, self.runs) }
+  }
+}
+
 // =====================================================================================================================
 // Part B: breadth-first search
 // =====================================================================================================================
@@ -1234,8 +1300,19 @@ impl Cfg {
     let l = TKey::Leaf;
     let p = TKey::Par;
     let (ra0, rb0, ra1, rb1, zra, zrb) = (RKey(RFam::RA, 0), RKey(RFam::RB, 0), RKey(RFam::RA, 1), RKey(RFam::RB, 1), RKey(RFam::ZRA, 0), RKey(RFam::ZRB, 0));
+    let (d0, d1) = (RKey(RFam::Dual, 0), RKey(RFam::Dual, 1));
     match tier {
       Tier::Thorough => vec![
+        Cfg {
+          name: "dual-role",
+          keys: vec![l(A, 0), l(B, 0), l(BoxA, 0), l(ZTA, 0), l(Dual, 0), l(Dual, 1), p(A, 0), p(Dual, 0)],
+          pairs: vec![(l(Dual, 0), l(Dual, 1)), (p(Dual, 0), l(Dual, 0)), (l(BoxA, 0), l(A, 0)), (l(A, 0), l(Dual, 0))],
+          resources: vec![ra0, rb0, d0, d1],
+          bu_resources: vec![ra0, rb0, d0, d1],
+          depth_cap: 64,
+          wall_cap_s: 120.0,
+          pruned_note: "dual-role alphabet: Dual(0), Dual(1) used as task AND as resource (the task Dual(v) reads the resource Dual(v)), parent of Dual(0), next to FA(0), FB(0), Box<FA>(0), ZTA, P(A,0); cells RA(0), RB(0), Dual(0), Dual(1)",
+        },
         Cfg {
           name: "zero-sized",
           keys: vec![l(A, 0), l(B, 0), l(ZTA, 0), l(ZTB, 0), l(BoxZTA, 0), l(ZUA, 0), l(ZUB, 0), l(Unit, 0), p(A, 0), p(ZTA, 0), p(ZUA, 0)],
@@ -1258,14 +1335,23 @@ impl Cfg {
         },
       ],
       Tier::Quick => vec![Cfg {
+        name: "quick-dual",
+        keys: vec![l(A, 0), l(B, 0), l(BoxA, 0), l(RcA, 0), l(ZTA, 0), l(Dual, 0), l(Dual, 1), p(Dual, 0)],
+        pairs: vec![(l(BoxA, 0), l(A, 0)), (l(Dual, 0), l(Dual, 1))],
+        resources: vec![ra0, d0],
+        bu_resources: vec![ra0, d0, d1],
+        depth_cap: 64,
+        wall_cap_s: 8.0,
+        pruned_note: "quick dual-role alphabet: Dual(0), Dual(1) used as task AND as resource (task Dual(v) reads resource Dual(v)), P(Dual,0), next to FA(0), FB(0), Box<FA>(0), Rc<FA>(0), ZTA; cells RA(0), Dual(0) (RB(0), Dual(1) stay 0); bottom-up reports of RA(0), Dual(0), Dual(1)",
+      }, Cfg {
         name: "quick-mixed",
-        keys: vec![l(A, 0), l(B, 0), l(BoxA, 0), l(RcA, 0), l(ZTA, 0), l(ZTB, 0), l(ZUA, 0), p(A, 0), p(ZTA, 0)],
+        keys: vec![l(A, 0), l(B, 0), l(BoxA, 0), l(ZTA, 0), l(ZTB, 0), l(ZUA, 0), p(A, 0), p(ZTA, 0)],
         pairs: vec![(p(A, 0), l(A, 0)), (l(ZTA, 0), l(ZTB, 0)), (l(A, 0), l(ZTA, 0))],
         resources: vec![ra0, rb0, zra],
         bu_resources: vec![ra0, rb0, zra],
         depth_cap: 64,
-        wall_cap_s: 18.0,
-        pruned_note: "quick tier: FA(0), FB(0), Box<FA>(0), Rc<FA>(0), the zero-sized tasks ZTA, ZTB, ZUA (reading the zero-sized resource ZRA), parents of FA(0) and ZTA. Pruned against the thorough tier (to stay under 25 s): Arc<FA>, Box<FB>, FA(1), FB(1), Box<ZTA>, ZUB/ZRB, the unit task () (covered by the scripted scenario in every run), P(B,0), P(BoxA,0), P(ZUA,0), the cells RA(1), RB(1), ZRB and most two-key sessions",
+        wall_cap_s: 20.0,
+        pruned_note: "quick tier: FA(0), FB(0), Box<FA>(0), the zero-sized tasks ZTA, ZTB, ZUA (reading the zero-sized resource ZRA), parents of FA(0) and ZTA. Pruned against the thorough tier (to stay under 25 s): Rc<FA> (it is in the quick-dual alphabet), Arc<FA>, Box<FB>, FA(1), FB(1), Box<ZTA>, ZUB/ZRB, the unit task () (covered by the scripted scenario in every run), P(B,0), P(BoxA,0), P(ZUA,0), the cells RA(1), RB(1), ZRB and most two-key sessions",
       }],
     }
   }
@@ -1366,12 +1452,22 @@ pub fn bfs(cfg: &Cfg, start: std::time::Instant) -> BfsResult {
                 if live.is_none() {
                   let mut pie = new_pie();
                   let mut broken = false;
-                  for pop in &path {
+                  for (pi, pop) in path.iter().enumerate() {
                     let o = apply_real(&mut pie, pop, false, ZForm::BoxDeref);
                     st.sessions_on_real_pie += 1;
-                    if o.panic.is_some() { broken = true; break; }
+                    if o.panic.is_some() {
+                      // A prefix that was validated before panics on re-execution: pie's behaviour depends on
+                      // something outside the operation path (hash seeds). Reported as a violation of pie.
+                      let mut m = MState::default();
+                      let mut e = Expect::default();
+                      for q in &path[..=pi] { e = m.step(q); }
+                      let f = judge_step(pop, &e, &m, &o);
+                      lf.push((pos as u32, oi as u16, f, o, m, path[..=pi].to_vec()));
+                      broken = true;
+                      break;
+                    }
                   }
-                  if broken { engine_error(&format!("C15: prefix {:?} panicked on replay although it was validated before", path.iter().map(|o| o.name()).collect::<Vec<_>>())); }
+                  if broken { break; }
                   st.fresh_instances += 1;
                   applied = path.clone();
                   live = Some(pie);
@@ -1452,15 +1548,32 @@ pub fn bfs(cfg: &Cfg, start: std::time::Instant) -> BfsResult {
 const RULE: &str = "identity = (concrete type, value): part A — for every ordered pair of keys from 15 families (8 same-representation families with a field x 2 values; 7 field-less ones: unit structs ZA, ZB, WA(ZA), pie's unit key (), Box/Rc/Arc of a unit struct), every one of the six equality routes through dyn KeyObj, evaluated for every combination of operand forms (borrowed from a value, boxed, static, promoted constant), is true iff same type and equal value, equal keys hash equal, and hash maps/sets (random, fixed and all-colliding hasher) keep exactly one entry per (type,value) and find it through every operand form; part B — after every operation of every explored sequence on a real Pie the returned outputs, the executed task identities (tracker), and the complete store census (hook: task nodes with cached outputs, resource nodes, edges, lookup-map sizes) equal a reference model whose cache is keyed by (type,value); zero-sized task / resource keys are handed to pie through `&*Box::new(key)` (the address every stored zero-sized key has)";
 const NONTRIVIAL_RULE: &str = "part A: ordered cross-type pairs with equal value whose dyn-KeyObj hashes coincide (the cases where only the type check separates the keys; all pairs of zero-sized types are among them); part B: distinct explored states in which at least two task nodes of different concrete types that look alike coexist in the store (same value among FA/FB/Box/Rc/Arc, or two zero-sized task types)";
 
+/// How often every scripted path is executed on fresh instances (fresh hash seeds).
+const SCRIPTED_RUNS: usize = 16;
+/// How often a replayed path is executed on fresh instances.
+const REPLAY_RUNS: usize = 32;
+
 /// Scripted scenarios, judged like every BFS transition under both operand forms for zero-sized keys.
 fn scripted_paths() -> Vec<(&'static str, Vec<Op>)> {
   use Fam::*;
   let l = TKey::Leaf;
   let p = TKey::Par;
   let (ra0, rb0, ra1, rb1, zra, zrb) = (RKey(RFam::RA, 0), RKey(RFam::RB, 0), RKey(RFam::RA, 1), RKey(RFam::RB, 1), RKey(RFam::ZRA, 0), RKey(RFam::ZRB, 0));
+  let (d0, d1) = (RKey(RFam::Dual, 0), RKey(RFam::Dual, 1));
   vec![
     // smallest case first: two unit-struct tasks that behave differently
     ("two-unit-struct-tasks", vec![Op::Req(l(ZTA, 0)), Op::Req(l(ZTB, 0)), Op::Req(l(ZTA, 0)), Op::Req2(l(ZTB, 0), l(ZTA, 0))]),
+    // wrapper required before the bare task (and after): both orders, for Box/Rc/Arc
+    ("wrapper-before-bare", vec![
+      Op::Req(l(BoxA, 0)), Op::Req(l(A, 0)), Op::Req(l(BoxA, 0)), Op::Req(l(BoxB, 0)), Op::Req(l(B, 0)), Op::Req(l(RcA, 0)), Op::Req(l(ArcA, 0)), Op::Req(l(A, 0)),
+      Op::Req(l(BoxZTA, 0)), Op::Req(l(ZTA, 0)), Op::Req(l(A, 1)), Op::Req(l(BoxA, 1)), Op::Req(p(A, 0)), Op::Req(p(BoxA, 0)),
+      Op::SetCell(ra0, 1), Op::Req(l(A, 0)), Op::Req(l(BoxA, 0)), Op::BottomUp(ra0), Op::Req(p(A, 0)),
+    ]),
+    // one type in both roles: task Dual(v) reads resource Dual(v)
+    ("dual-role", vec![
+      Op::Req(l(Dual, 0)), Op::Req(l(Dual, 0)), Op::SetCell(d0, 1), Op::Req(l(Dual, 0)), Op::SetCell(d0, 0), Op::BottomUp(d0), Op::Req(l(Dual, 0)),
+      Op::BottomUp(d1), Op::Req(l(Dual, 1)), Op::Req(p(Dual, 0)), Op::SetCell(d0, 1), Op::Req(p(Dual, 0)), Op::SetCell(d1, 1), Op::BottomUp(d1), Op::Req2(l(Dual, 1), l(Dual, 0)),
+    ]),
     // pie's unit task and two unit-struct tasks in one Pie: three task nodes, each executed once
     ("unit-and-unit-structs", vec![
       Op::Req(l(Unit, 0)), Op::Req(l(ZTA, 0)), Op::Req(l(ZTB, 0)), Op::Req2(l(Unit, 0), l(ZTA, 0)), Op::Req(l(ZTB, 0)),
@@ -1489,12 +1602,12 @@ fn path_sample(ops: &[Op], obs: &[Obs], z: ZForm) -> Value {
   json!({"part": "B", "zero_sized_operand_form": z.name(), "ops": ops.iter().map(|o| o.name()).collect::<Vec<_>>(), "steps": steps})
 }
 
-fn b_violation(ops: &[Op], step: usize, f: &Fail, obs: &Obs, post: &MState, z: ZForm) -> Violation {
+fn b_violation(ops: &[Op], step: usize, f: &Fail, obs: &Obs, post: &MState, z: ZForm, note: &str) -> Violation {
   Violation {
     property: "C15".into(), oracle: f.oracle.clone(), key: String::new(),
-    what: format!("{} [path: {}; zero-sized keys passed as {}]", f.what, ops.iter().map(|o| o.name()).collect::<Vec<_>>().join(" "), z.name()),
+    what: format!("{} [path: {}; zero-sized keys passed as {}{}{}]", f.what, ops.iter().map(|o| o.name()).collect::<Vec<_>>().join(" "), z.name(), if note.is_empty() { "" } else { "; " }, note),
     replay: json!({"part": "B", "zst_form": z.name(), "ops": ops.iter().map(|o| o.name()).collect::<Vec<_>>(), "failing_step": step, "oracle": f.oracle,
-      "expected": f.expected, "observed": f.observed, "model_state_after": post.to_json(), "model_store_after": post.census().to_json(), "observation": obs.to_json()}),
+      "note": note, "expected": f.expected, "observed": f.observed, "model_state_after": post.to_json(), "model_store_after": post.census().to_json(), "observation": obs.to_json()}),
   }
 }
 
@@ -1549,6 +1662,12 @@ fn part_a(report: &mut dyn FnMut(Violation)) -> (AStats, Vec<Value>) {
         replay: json!({"part": "A", "case": "collections", "order": order, "oracle": f.oracle, "expected": f.expected, "observed": f.observed}) });
     }
   }
+  // Information only (nothing to judge): one type used as task and as resource is of course ONE key for `dyn KeyObj`
+  // (same type, same value); keeping the two roles apart is the Store's job (part B census through VerifNode).
+  let (dt, dr) = (Dual(0), Dual(0));
+  let same = (&dt as &dyn KeyObj) == (&dr as &dyn KeyObj) && dyn_hash(&dt) == dyn_hash(&dr);
+  samples.push(json!({"part": "A", "case": "dual-role key (information)", "x": "Dual(0) used as task", "y": "Dual(0) used as resource", "dyn_KeyObj_equal_and_equal_hash": same,
+    "note": "same type and value: equal by the identity rule; the role separation is checked on the Store in part B"}));
   (st, samples)
 }
 
@@ -1570,22 +1689,23 @@ pub fn run(args: &Args) -> i32 {
   let bfs_only = args.extra.iter().any(|e| e == "bfs-only");
   let mut seen_oracles: Vec<String> = Vec::new();
   let mut scripted_steps = 0usize;
+  let mut scripted_nondeterministic = 0usize;
   for (name, path) in scripted_paths() {
     for z in [ZForm::BoxDeref, ZForm::Local] {
-      let obs = run_path_full(&path, z);
-      let obs2 = run_path_full(&path, z);
-      if obs != obs2 { engine_error(&format!("C15: two executions of the scripted path {} differ", name)); }
-      scripted_steps += obs.len();
-      if let Some((step, fails, _)) = judge_path(&path, &obs).filter(|_| !bfs_only) {
+      let _ = name;
+      let r = run_repeated(&path, z, SCRIPTED_RUNS);
+      scripted_steps += r.obs.len() * r.runs;
+      if !r.deterministic { scripted_nondeterministic += 1; }
+      if let Some((step, fails)) = r.fail.as_ref().filter(|_| !bfs_only) {
         let mut m = MState::default();
-        for op in &path[..=step] { let _ = m.step(op); }
-        for f in &fails {
+        for op in &path[..=*step] { let _ = m.step(op); }
+        for f in fails {
           if seen_oracles.contains(&f.oracle) { continue; }
           seen_oracles.push(f.oracle.clone());
-          rep.violation(b_violation(&path[..=step], step, f, &obs[step], &m, z));
+          rep.violation(b_violation(&path[..=*step], *step, f, &r.obs[*step], &m, z, &r.note()));
         }
       }
-      if z == ZForm::BoxDeref { samples.push(path_sample(&path, &obs, z)); }
+      if z == ZForm::BoxDeref { samples.push(path_sample(&path, &r.obs, z)); }
     }
   }
 
@@ -1602,7 +1722,7 @@ pub fn run(args: &Args) -> i32 {
       for f in &bf.fails {
         if seen_oracles.contains(&f.oracle) { continue; }
         seen_oracles.push(f.oracle.clone());
-        rep.violation(b_violation(&bf.ops, bf.step, f, &bf.obs, &bf.post, ZForm::BoxDeref));
+        rep.violation(b_violation(&bf.ops, bf.step, f, &bf.obs, &bf.post, ZForm::BoxDeref, "found by the search; one execution"));
       }
     }
     if res.fails.is_empty() && !res.deepest_path.is_empty() {
@@ -1633,6 +1753,7 @@ pub fn run(args: &Args) -> i32 {
   rep.set("transitions", json!(s.transitions));
   rep.set("traces_validated_against_impl", json!(s.transitions + scripted_steps));
   rep.set("scripted_steps_validated", json!(scripted_steps));
+  rep.set("scripted_paths_with_nondeterministic_behaviour", json!(scripted_nondeterministic));
   rep.set("sessions_executed_on_real_pie", json!(s.sessions_on_real_pie));
   rep.set("fresh_pie_instances", json!(s.fresh_instances));
   rep.set("samples", Value::Array(samples));
@@ -1700,9 +1821,10 @@ fn replay(file: &std::path::Path, mut rep: Report) -> i32 {
         Some("pair") => {
           let x = r.get("x").and_then(|s| s.as_str()).and_then(a_key_parse).unwrap_or_else(|| engine_error("replay: bad x"));
           let y = r.get("y").and_then(|s| s.as_str()).and_then(a_key_parse).unwrap_or_else(|| engine_error("replay: bad y"));
+          // executed twice; the verdicts (not the operand addresses) have to agree, else the worse one is reported
           let o1 = observe_pair(x, y);
           let o2 = observe_pair(x, y);
-          if o1 != o2 { engine_error("replay: two executions of the pair differ: not a verdict"); }
+          let o1 = if judge_pair(x, y, &o1).len() >= judge_pair(x, y, &o2).len() { o1 } else { o2 };
           steps = 1;
           for f in judge_pair(x, y, &o1) {
             found.push(Violation { property: "C15".into(), oracle: f.oracle.clone(), key: String::new(), what: f.what.clone(),
@@ -1715,7 +1837,7 @@ fn replay(file: &std::path::Path, mut rep: Report) -> i32 {
           if order >= 2 * a_keys().len() { engine_error("replay: order out of range"); }
           let o1 = observe_collections(order);
           let o2 = observe_collections(order);
-          if o1 != o2 { engine_error("replay: two executions of the collection case differ: not a verdict"); }
+          let o1 = if judge_collections(order, &o1).len() >= judge_collections(order, &o2).len() { o1 } else { o2 };
           steps = 1;
           for f in judge_collections(order, &o1) {
             found.push(Violation { property: "C15".into(), oracle: f.oracle.clone(), key: String::new(), what: f.what.clone(),
@@ -1730,16 +1852,17 @@ fn replay(file: &std::path::Path, mut rep: Report) -> i32 {
       let ops: Vec<Op> = r.get("ops").and_then(|o| o.as_array()).unwrap_or_else(|| engine_error("replay: ops missing"))
         .iter().map(|s| s.as_str().and_then(Op::parse).unwrap_or_else(|| engine_error(&format!("replay: bad op {}", s)))).collect();
       let z = match r.get("zst_form").and_then(|z| z.as_str()) { None => ZForm::BoxDeref, Some(t) => ZForm::parse(t).unwrap_or_else(|| engine_error("replay: bad zst_form")) };
-      let o1 = run_path_full(&ops, z);
-      let o2 = run_path_full(&ops, z);
-      if o1 != o2 { engine_error("replay: two executions of the operation path differ: not a verdict"); }
-      steps = o1.len();
-      if let Some((step, fails, _)) = judge_path(&ops, &o1) {
+      // Executed REPLAY_RUNS times on fresh instances; every execution is judged. Executions that differ from each
+      // other are a property of the code under test (hash-seed dependence) and are reported through the failing oracle.
+      let r = run_repeated(&ops, z, REPLAY_RUNS);
+      steps = r.obs.len();
+      if let Some((step, fails)) = &r.fail {
         let mut m = MState::default();
-        for op in &ops[..=step] { let _ = m.step(op); }
-        for f in &fails { found.push(b_violation(&ops[..=step], step, f, &o1[step], &m, z)); }
+        for op in &ops[..=*step] { let _ = m.step(op); }
+        for f in fails { found.push(b_violation(&ops[..=*step], *step, f, &r.obs[*step], &m, z, &r.note())); }
       }
-      rep.set("samples", json!([path_sample(&ops, &o1, z)]));
+      rep.set("replay_executions", json!({"runs": r.runs, "failing": r.failing_runs, "deterministic": r.deterministic}));
+      rep.set("samples", json!([path_sample(&ops, &r.obs, z)]));
     }
     _ => engine_error("replay: unknown part"),
   }
@@ -1870,6 +1993,27 @@ mod tests {
     assert_eq!(m.census().resources, vec![RA0, RB0, zra, zrb]);
     // parent of a unit-struct task shares the child's entry
     assert_eq!(m.step(&Op::Req(p(Fam::ZTA, 0))), Expect { outputs: vec![11], executed: vec![p(Fam::ZTA, 0)] });
+  }
+
+  #[test]
+  fn dual_role_key_has_a_task_node_and_a_resource_node() {
+    let (d0, d1) = (RKey(RFam::Dual, 0), RKey(RFam::Dual, 1));
+    let mut m = MState::default();
+    assert_eq!(m.step(&Op::Req(l(Fam::Dual, 0))), Expect { outputs: vec![5], executed: vec![l(Fam::Dual, 0)] });
+    let c = m.census();
+    assert_eq!(c.tasks, vec![(l(Fam::Dual, 0), Some(5))]);
+    assert_eq!(c.resources, vec![d0]);
+    assert_eq!(c.edges, vec![EdgeObs::Read { src: l(Fam::Dual, 0), dst: d0, stamp: Some(0) }]);
+    // the output follows the cell of the resource Dual(0), not of Dual(1)
+    m.step(&Op::SetCell(d1, 1));
+    assert!(m.step(&Op::Req(l(Fam::Dual, 0))).executed.is_empty());
+    m.step(&Op::SetCell(d0, 1));
+    assert_eq!(m.step(&Op::Req(l(Fam::Dual, 0))), Expect { outputs: vec![15], executed: vec![l(Fam::Dual, 0)] });
+    m.step(&Op::SetCell(d0, 0));
+    assert_eq!(m.step(&Op::BottomUp(d0)).executed, vec![l(Fam::Dual, 0)]);
+    assert_eq!(m.step(&Op::Req(p(Fam::Dual, 0))), Expect { outputs: vec![5], executed: vec![p(Fam::Dual, 0)] });
+    assert_eq!(m.step(&Op::Req(l(Fam::Dual, 1))).outputs, vec![15]);
+    assert_eq!(m.census().resources, vec![d0, d1]);
   }
 
   #[test]
